@@ -1,7 +1,7 @@
 (* C19 driver.  Case line (decimal integers):
    E <wkind> <ckind> <nops> { <isString 0|1> <n> <reported k> <err 0|1> <Size() after> }*nops <nrecv> { <value> }*nrecv <closed 0|1> *)
 let () =
-  let cases = ref 0 and specfail = ref 0 and mismatch = ref 0 and delivered = ref 0 in
+  let cases = ref 0 and specfail = ref 0 and mismatch = ref 0 and drift = ref 0 and delivered = ref 0 in
   iter_lines Sys.argv.(1) (fun line ->
     match split_ws line with
     | "E" :: _wk :: ck :: nops :: rest ->
@@ -29,7 +29,9 @@ let () =
                Printf.printf "SPECFAIL %s size=%b monotone=%b prefix=%b final=%b closed=%b\n" line
                  v.spec_size v.spec_mono v.spec_prefix v.spec_final v.spec_closed end
              else if not v.model_run then begin
-               incr mismatch; Printf.printf "MISMATCH %s\n" line end
+               (* the specification holds but the history is not a run of the rendezvous model (e.g. a buffering
+                  implementation hands an older total to a consumer that was not waiting): not an alarm *)
+               incr drift; Printf.printf "DRIFT %s\n" line end
          | [] -> failwith ("bad case line: " ^ line))
     | _ -> ());
-  Printf.printf "STATS cases=%d specfail=%d mismatch=%d drift=0 values_delivered_by_writes=%d\n" !cases !specfail !mismatch !delivered
+  Printf.printf "STATS cases=%d specfail=%d mismatch=%d drift=%d values_delivered_by_writes=%d\n" !cases !specfail !mismatch !drift !delivered
